@@ -42,6 +42,17 @@ type peerSpec struct {
 	Beyond      respSpec   `json:"beyond"`           // behaviour for heights above the canonical tip (inflated status)
 	Status2     string     `json:"status2,omitempty"` // optional later unsolicited status ("true"|"stale"|"inflated")
 	Status2At   int        `json:"s2at,omitempty"`
+	Push        *pushSpec  `json:"push,omitempty"` // pushes unsolicited blocks for heights requested from OTHER peers
+}
+
+// pushSpec: whenever the node sends a BlockRequest for a height >= initial+From to some other peer, this peer pushes
+// a BlockResponse of its own for that height (once per height), Delay ticks later - i.e. ahead of a slower honest
+// answer. With Status "none" the peer never announces a range, so the node never asks it for anything.
+type pushSpec struct {
+	Kind  string `json:"k"` // what it pushes (a content lie or a commit lie)
+	Arg   int    `json:"a,omitempty"`
+	Delay int    `json:"d,omitempty"`
+	From  int    `json:"from,omitempty"`
 }
 
 // coalitionSpec: liars that hold the validators' keys serve, at Target and Target+1, an INVALID block signed by the
@@ -60,6 +71,10 @@ type scenario struct {
 	Peers     []peerSpec     `json:"peers"`
 	Coalition *coalitionSpec `json:"coalition,omitempty"`
 	Slow      bool           `json:"slow,omitempty"` // contains behaviours that cost the 15 s peer timeout
+	// Family "push": the ONLY misbehaviour are unsolicited pushes (at most one pusher announces a range and then
+	// answers its own requests faithfully). No response the node asked for is a lie, so on a correct node no
+	// verification can fail and nobody but the pushers may be stopped.
+	Family string `json:"family,omitempty"`
 }
 
 // ---- response kinds ----
@@ -132,6 +147,11 @@ func genScenario(t *rapid.T, reactor string, thorough bool) *scenario {
 			}
 		}
 		sc.Heights = append(sc.Heights, hs)
+	}
+
+	if rapid.SampledFrom([]string{"mixed", "mixed", "mixed", "mixed", "push"}).Draw(t, "family") == "push" {
+		genPushPeers(t, sc, n)
+		return sc
 	}
 
 	// peers: at least one honest full peer
@@ -233,6 +253,55 @@ func genScenario(t *rapid.T, reactor string, thorough bool) *scenario {
 	}
 	sc.Peers = peers
 	return sc
+}
+
+// pushLieKinds: what a pusher puts on the wire (every kind is a non-canonical block that passes message validation).
+var pushLieKinds = append([]string{"fork", "fork", "tx-tamper", "hdr-tamper"}, commitLies...)
+
+// genPushPeers: honest peers on slow links (answers 10-60 driver ticks after the request) and 1-3 peers that push
+// their own blocks for whatever the node requests from others.
+func genPushPeers(t *rapid.T, sc *scenario, n int) {
+	sc.Family = "push"
+	slowResp := func(label string) respSpec {
+		r := genResp(t, "right", label)
+		r.Delay = rapid.SampledFrom([]int{10, 15, 20, 30, 45, 60}).Draw(t, label+".slowlink")
+		return r
+	}
+	nHonest := rapid.SampledFrom([]int{1, 1, 2}).Draw(t, "nhonest")
+	for i := 0; i < nHonest; i++ {
+		ps := peerSpec{Role: "honest", Status: "true", StatusDelay: rapid.IntRange(0, 3).Draw(t, "sdelay")}
+		for h := 0; h < n; h++ {
+			ps.Resp = append(ps.Resp, slowResp("hresp"))
+		}
+		sc.Peers = append(sc.Peers, ps)
+	}
+	if rapid.IntRange(0, 3).Draw(t, "npartial") == 0 {
+		ps := peerSpec{Role: "partial", Status: "stale", StatusArg: rapid.IntRange(1, 3).Draw(t, "pshort"),
+			BaseArg: rapid.IntRange(0, 2).Draw(t, "pbase"), StatusDelay: rapid.IntRange(0, 3).Draw(t, "sdelay")}
+		for h := 0; h < n; h++ {
+			ps.Resp = append(ps.Resp, slowResp("presp"))
+		}
+		sc.Peers = append(sc.Peers, ps)
+	}
+	nPush := rapid.SampledFrom([]int{1, 1, 2, 3}).Draw(t, "npush")
+	for i := 0; i < nPush; i++ {
+		ps := peerSpec{Role: "liar", Status: "none", StatusDelay: rapid.IntRange(0, 3).Draw(t, "sdelay"), Beyond: respSpec{Kind: "fabricate"}}
+		if i == 0 && rapid.IntRange(0, 2).Draw(t, "announces") == 0 {
+			ps.Status = "true" // in the pool: asked for blocks itself, answers those faithfully
+		}
+		for h := 0; h < n; h++ {
+			ps.Resp = append(ps.Resp, genResp(t, "right", "lresp"))
+		}
+		ps.Push = &pushSpec{Kind: rapid.SampledFrom(pushLieKinds).Draw(t, "pushkind"), Arg: rapid.IntRange(0, 15).Draw(t, "pusharg"),
+			Delay: rapid.IntRange(0, 3).Draw(t, "pushdelay"), From: rapid.SampledFrom([]int{0, 0, 0, 1, 3, n - 2}).Draw(t, "pushfrom")}
+		sc.Peers = append(sc.Peers, ps)
+	}
+	perm := rapid.Permutation(seq(len(sc.Peers))).Draw(t, "peerorder")
+	peers := make([]peerSpec, len(sc.Peers))
+	for i, j := range perm {
+		peers[i] = sc.Peers[j]
+	}
+	sc.Peers = peers
 }
 
 func seq(n int) []int {
